@@ -1,4 +1,5 @@
 import Hertz.Proofs.Http1
+import Hertz.Proofs.Http1Limits
 /-!
 # C03 — no peer-controlled input can crash the process; bad input gets a clean 4xx
 
@@ -11,6 +12,10 @@ Proved here for every configuration, every inbound byte stream and both stream e
 * `reject_is_clean`: whenever the loop answers with an error it is 400/413/408, carries
   `Connection: close`, is the last thing written, and no handler ran for that request (the trace has
   the shape `cleanTrace`);
+* `parsed_chunk_size_is_int`: every chunk size `ParseChunkSize` accepts is below 2^63, for every input (the
+  digit bound is the regenerated `maxHexIntChars`);
+* `oversize_never_handled`: with a body limit configured, no request whose (de-chunked) body is longer than the
+  limit is ever handed to a handler, whatever the stream;
 * `empty_trailer_name_is_bad`: the fixed `IsBadTrailer` treats the empty name as bad instead of indexing it.
 -/
 namespace Hertz.Props.C03
@@ -22,6 +27,32 @@ theorem reject_is_clean (cfg : Cfg) (e : End) (s : Bytes) : cleanTrace (serve cf
 /-- A chunk-size line is read into a Go `int`: the number of hex digits `ReadHexInt` accepts must keep
 the value below 2^63, otherwise the size goes negative and the body reader slices with it. -/
 theorem chunk_size_fits_int : (16 : Int) ^ Gen.maxHexIntChars.toNat ≤ 2 ^ 63 := by decide
+
+/-- Every chunk size the reader accepts fits a Go `int`, for every input. -/
+theorem parsed_chunk_size_is_int (e : End) (s : Bytes) (n : Nat) (rest : Bytes)
+    (h : parseChunkSize e s = .ok (n, rest)) : (n : Int) < 2 ^ 63 := by
+  have h1 := parseChunkSize_bound e s n rest h
+  have h2 := chunk_size_fits_int
+  have h3 : ((16 ^ Gen.maxHexIntChars.toNat : Nat) : Int) = (16 : Int) ^ Gen.maxHexIntChars.toNat := by
+    simp
+  omega
+
+/-- non-vacuity: the largest accepted size line -/
+example : (match parseChunkSize .eof [102,102,102,102,102,102,102,102,102,102,102,102,102,102,102,13,10] with
+    | .ok (n, r) => n == 1152921504606846975 && r.isEmpty
+    | .error _ => false) = true := by decide +kernel
+
+/-- "because its body exceeds the configured limit (which with buffered bodies it always does)": a request the
+handler sees never carries more than `MaxRequestBodySize` body bytes. -/
+theorem oversize_never_handled (cfg : Cfg) (e : End) (s : Bytes) (hm : cfg.maxBody > 0) (sn : Seen)
+    (h : Ev.req sn ∈ serve cfg e s) : sn.body.length ≤ cfg.maxBody :=
+  serve_body_le cfg e hm s sn h
+
+/-- non-vacuity: limit 2, `POST / HTTP/1.1`, `Host: a`, `Content-Length: 3` is refused with 413 and no handler event. -/
+example : serve { maxBody := 2 } .eof
+    [80,79,83,84,32,47,32,72,84,84,80,47,49,46,49,13,10,72,111,115,116,58,32,97,13,10,
+     67,111,110,116,101,110,116,45,76,101,110,103,116,104,58,32,51,13,10,13,10,97,98,99] = [.resp 413 true] := by
+  decide +kernel
 
 theorem empty_trailer_name_is_bad : isBadTrailer [] = true := rfl
 
